@@ -24,6 +24,10 @@ Two deviations of the Go lexer are *part of the proved statements* (they are tru
 well, see the header of `StartsAt`): the `EOF` token of a source ending in `'\n'` has character
 column 1 but byte column 0 (`eofUcol`), and the `EOF` token produced for a NUL character is
 reported one column after that character.  Nothing is left partial.
+
+F16 (a NUL inside a `#` / `//` comment used to end the comment) is fixed in lexer.go and in the
+model; `Skips` (the skipped text in `nextToken_ok` and (a)) now lets a comment contain any
+character except newline, so the statements below also cover sources with NUL inside comments.
 -/
 namespace Pory.C19
 open Pory Pory.Lexer Pory.LexPos
